@@ -162,3 +162,21 @@ Proof.
   split; [vm_compute; reflexivity|].
   cbn. unfold qupd. cbn. repeat split; try lia; try reflexivity; try discriminate; try (left; reflexivity); intros; discriminate.
 Qed.
+
+(* non-vacuity of C01_cancelled_sender: a three-part message, cancelled in the sending hook of part 3 (parts 1, 2 recorded): the handler
+   reports it; part 1 is then accepted and part 2 times out - a valid history - and the hooks see nothing *)
+Example C01_cancelled_nonvacuous :
+  let sq := fun i => 101 + Z.of_nat i in
+  let gs := [OPut 0; OPut 1; OResp 0 {| rs_uid := 21; rs_cmd := 2147483652; rs_seq := 101; rs_status := 0 |} 501; OExpire 1] in
+  handler_reports 3 (BeforePut 2) = true /\ stored_parts (BeforePut 2) = 2%nat
+  /\ ovalid 3 sq (fun _ => QNot) None gs
+  /\ (forall i, In (OPut i) gs -> (i < 2)%nat)
+  /\ filter is_outcome (concat (hrun_each hinit (map (oconc 5 7 3 sq (fun i => 10 + Z.of_nat i)) gs))) = []
+  /\ handler_reports 3 (InsidePut 2) = false /\ stored_parts (InsidePut 2) = 3%nat.
+Proof.
+  cbn zeta. split; [reflexivity|]. split; [reflexivity|]. split.
+  - cbn. repeat split; try lia; try (intros; discriminate); auto.
+  - split.
+    + intros i [H|[H|[H|[H|[]]]]]; try discriminate; injection H as <-; lia.
+    + split; [vm_compute; reflexivity|]. split; reflexivity.
+Qed.
